@@ -156,6 +156,7 @@ def run(ck: Check):
         compare(ck, sim, res.records, ln.evaluate_records(ck, sim, res.records), "simulate tight=%s" % tight)
     ck.extra["role_A"] = "FootprintLemma (Peak <= Footprint <= Tile) and ExecOK hold on every explored mapping"
     fused_part(ck)
+    persistent_part(ck)
 
 
 def chain_spec(rng, n_einsums, glb_choices=(128, 256, 512, 2048), bound_choices=(2, 4), ns=None, m=None):
@@ -326,6 +327,147 @@ def fused_part(ck):
                    "reported_usage": {k: str(mc.fr(x)) for k, x in meta[c["id"]][2]["usage"].items()}})
 
 
+PERSIST_ARCH = """
+arch:
+  nodes:
+  - !Memory
+    name: DRAM
+    size: inf
+    leak_power: 0
+    area: 0
+    tensors: {keep: ~Intermediates, may_keep: All}
+    actions:
+    - {name: read, energy: 1, throughput: inf}
+    - {name: write, energy: 1, throughput: inf}
+  - !Memory
+    name: GLB
+    size: %d
+    leak_power: 0
+    area: 0
+    tensors: {keep: ~DRAM, may_keep: All}
+    actions:
+    - {name: read, energy: 1, throughput: inf}
+    - {name: write, energy: 1, throughput: inf}
+  - !Compute
+    name: MAC
+    leak_power: 0
+    area: 0
+    actions:
+    - {name: compute, energy: 1, throughput: 1}
+"""
+
+
+def persistent_case(ninst, m, n0, n1, mt, glb, shared):
+    """Two fused matmuls under a shared m loop with a PERSISTENT weight held in the GLB above every loop, in a workload
+    that is repeated ninst times.  shared: both Einsums use the one weight W[n0, n1] (M1 contracts over n1), otherwise
+    each has its own (W0[n0, n1], W1[n1, n2] with n2 = n0's bound)."""
+    w1, r2 = ("W", "n0") if shared else ("W1", "n2")
+    w0 = "W" if shared else "W0"
+    wl = ["workload:", "  n_instances: %d" % ninst, "  iteration_space_shape:", "    m: 0 <= m < %d" % m,
+          "    n0: 0 <= n0 < %d" % n0, "    n1: 0 <= n1 < %d" % n1]
+    if not shared:
+        wl.append("    n2: 0 <= n2 < %d" % n0)
+    wl += ["  bits_per_value: {All: 8}", "  einsums:",
+           "  - name: M0", "    tensor_accesses:", "    - {name: T0, projection: [m, n0]}",
+           "    - {name: %s, projection: [n0, n1], persistent: True}" % w0, "    - {name: T1, projection: [m, n1], output: True}",
+           "  - name: M1", "    tensor_accesses:", "    - {name: T1, projection: [m, n1]}",
+           "    - {name: %s, projection: [%s, n1], persistent: True}" % (w1, r2) if shared else
+           "    - {name: %s, projection: [n1, %s], persistent: True}" % (w1, r2),
+           "    - {name: T2, projection: [m, %s], output: True}" % r2]
+    proj = {"T0": ["m", "n0"], w0: ["n0", "n1"], "T1": ["m", "n1"], "T2": ["m", r2]}
+    if not shared:
+        proj[w1] = ["n1", r2]
+    bound = {"m": m, "n0": n0, "n1": n1}
+    if not shared:
+        bound["n2"] = n0
+    persist = sorted({w0, w1})
+    world = {"bound": bound, "proj": proj, "level": {"DRAM": 0, "GLB": 1}, "istoll": {"DRAM": False, "GLB": False},
+             "bits": {c: {t: 8 for t in proj} for c in ("DRAM", "GLB")},
+             "einsums": [{"name": "M0", "tensors": ["T0", w0, "T1"]}, {"name": "M1", "tensors": ["T1", w1, "T2"]}],
+             "size": {"DRAM": 0, "GLB": glb}, "persist": persist, "ninst": ninst}
+    hid = [0]
+
+    def S(mem, t, **kw):
+        hid[0] += 1
+        return dict({"kind": "S", "id": hid[0], "mem": mem, "t": t}, **kw)
+    inner = [{"kind": "T", "rv": "m", "tile": 1}] if mt > 1 else []
+    tree = [S("DRAM", "T0"), S("DRAM", "T2")] + [S("GLB", t, persistent=True) for t in persist] + \
+           [{"kind": "T", "rv": "m", "tile": mt}, S("GLB", "T0"), S("GLB", "T2"), S("GLB", "T1"),
+            {"kind": "Q", "children": [
+                inner + [{"kind": "T", "rv": "n0", "tile": 1}, {"kind": "T", "rv": "n1", "tile": 1}, {"kind": "C", "einsum": "M0"}],
+                inner + [{"kind": "T", "rv": "n1", "tile": 1}, {"kind": "T", "rv": r2, "tile": 1}, {"kind": "C", "einsum": "M1"}]]}]
+    return PERSIST_ARCH % glb, "\n".join(wl) + "\n", world, tree
+
+
+def _persist_job(args):
+    arch, wl, nodes, d, tag = args
+    import os, traceback
+    try:
+        from accelforge.frontend.spec import Spec
+        from accelforge.model.main import evaluate_mapping
+        from accelforge.util.parallel import set_n_parallel_jobs
+        from checks import mapper_common as mc
+        set_n_parallel_jobs(1)
+        os.makedirs(d, exist_ok=True)
+        paths = []
+        for name, txt in (("a", arch), ("w", wl), ("m", fused_mapping_yaml(nodes))):
+            paths.append(os.path.join(d, "%s_%s.yaml" % (tag, name)))
+            open(paths[-1], "w").write(txt)
+        r = evaluate_mapping(Spec.from_yaml(*paths))
+        return {"usage": {k: mc._x(v) for k, v in r.resource_usage().items()}}
+    except Exception as e:
+        return {"exception": "%s: %s" % (type(e).__name__, e), "traceback": traceback.format_exc()[-3000:]}
+
+
+def persistent_part(ck):
+    """Concrete fused mappings with persistent weights and a repeated workload (n_instances 1..3): the model's reported
+    GLB usage against spec/FusedTree's peak, in which a persistent tile exists once per workload instance."""
+    import os
+    from concurrent.futures import ProcessPoolExecutor
+    from checks import mapper_common as mc
+    thorough = ck.tier == "thorough"
+    rng = random.Random(ck.seed * 31 + 660)
+    combos = []
+    for shared in (True, False):
+        for ninst in (1, 2, 3):
+            for k in range(1 if not thorough else 4):
+                m = rng.choice([4, 8])
+                combos.append((ninst, m, rng.choice([2, 4]), rng.choice([2, 4]), rng.choice([1, 2, m]), rng.choice([4096, 8192]), shared))
+    built = [persistent_case(*c) for c in combos]
+    d = os.path.join(ck.work, "persist")
+    with ProcessPoolExecutor(4) as ex:
+        outs = list(ex.map(_persist_job, [(a, w, tree, d, "p%d" % i) for i, (a, w, world, tree) in enumerate(built)]))
+    cases = [{"id": "P%d" % i, "world": world, "tree": tree} for i, (a, w, world, tree) in enumerate(built)]
+    path = os.path.join(ck.work, "persist_cases.json")
+    json.dump(cases, open(path, "w"))
+    res = ck.tlc("FusedTree", "FusedTree.cfg", env={"CASES_FILE": path}, coverage=False, workers=2, timeout=1200)
+    if not res.ok or len(res.records) != len(cases):
+        raise Machinery("FusedTree run (persistent part) failed: %s\n%s" % (res.violated, res.tail))
+    peaks = {v["id"]: v["peak"] for v in res.records}
+    done = 0
+    for i, ((a, w, world, tree), o, combo) in enumerate(zip(built, outs, combos)):
+        ck.evaluations += 1
+        if "exception" in o:
+            ck.impl_errors += 1
+            if ck.impl_error_sample is None:
+                ck.impl_error_sample = {"case": "persistent fused mapping %s" % (combo,), "traceback": o["exception"] + "\n" + o["traceback"]}
+            continue
+        ck.traces += 1
+        done += 1
+        if combo[0] > 1:
+            ck.count_nontrivial(("persist", combo))
+        got = mc.fr(o["usage"].get("GLB", [0, 1])) * world["size"]["GLB"]
+        peak = peaks["P%d" % i]["GLB"]
+        if got != peak:
+            ck.violation("C06/fused/persistent/%s" % ("under-reservation" if got < peak else "over-reservation"),
+                         "fused tree %s with persistent %s, n_instances %d: reported %s bits in GLB, execution-time peak is %s"
+                         % (tree_str(tree), world["persist"], combo[0], got, peak),
+                         {"kind": "fused", "arch": a, "workload": w, "metrics": None, "world": world, "nodes": tree, "memory": "GLB"})
+    ck.extra["persistent_fused_mappings_evaluated"] = done
+    if not done:
+        raise Machinery("persistent part: the model evaluated none of the concrete fused mappings: %s" % ck.impl_error_sample)
+
+
 def tree_str(nodes):
     out = []
     for n in nodes:
@@ -346,7 +488,8 @@ def fused_mapping_yaml(nodes):
     def emit(ns, ind):
         for n in ns:
             if n["kind"] == "S":
-                out.append("%s- !Storage {tensors: [%s], component: %s}" % (ind, n["t"], n["mem"]))
+                out.append("%s- !Storage {tensors: [%s], component: %s%s}" % (ind, n["t"], n["mem"],
+                                                                              ", persistent: True" if n.get("persistent") else ""))
             elif n["kind"] == "T":
                 out.append("%s- !Temporal {rank_variable: %s, tile_shape: %d}" % (ind, n["rv"], n["tile"]))
             elif n["kind"] == "C":
@@ -367,6 +510,8 @@ def replay_fused(path, rec):
     from accelforge.frontend.spec import Spec
     from accelforge.model.main import evaluate_mapping
     from checks import mapper_common as mc
+    from accelforge.util.parallel import set_n_parallel_jobs
+    set_n_parallel_jobs(1)
     d = os.path.join(os.path.dirname(os.path.abspath(path)), "_replay_tmp")
     os.makedirs(d, exist_ok=True)
     for name, txt in (("a", rec["arch"]), ("w", rec["workload"]), ("m", fused_mapping_yaml(rec["nodes"]))):
